@@ -529,6 +529,12 @@ func (e *Eng) evalSel(n *ESel, env *Env, cur, old *State) *Val {
 }
 
 func (e *Eng) selectField(base *Val, name string, cur *State) *Val {
+	// the name of an address-taken pointer variable denotes its cell (a **T): a selector means the pointer in the cell
+	if pt := derefType(base.Typ); pt != nil {
+		if ppt := derefType(pt); ppt != nil && structOf(ppt) != nil {
+			base = &Val{T: e.load(cur, e.locOfPtr(base)), Typ: pt, KnownLen: -1}
+		}
+	}
 	t := base.Typ
 	isPtr := false
 	if pt := derefType(t); pt != nil {
